@@ -2,6 +2,7 @@ import OutlineModel.Proofs.IP
 import OutlineModel.Proofs.UDP
 import OutlineModel.Model.Dial
 import OutlineModel.Gen.Wiring
+import OutlineModel.Gen.Decisions
 /-
 C05 — The proxy never sends traffic to non-public destinations (address-policy part).
 
@@ -130,5 +131,14 @@ example : requirePublicIP Gen.privateNets (v4InV6Prefix ++ [127, 0, 0, 1]) = .in
 example : requirePublicIP Gen.privateNets [0x20, 0x01, 0x0d, 0xb8, 0,0,0,0,0,0,0,0,0,0,0,1] = .ok := by decide
 example : requirePublicIP Gen.privateNets [0xfd, 0,0,0,0,0,0,0,0,0,0,0,0,0,0,1] = .priv := by decide
 example : requirePublicIP Gen.privateNets [] = .invalid := by decide
+
+
+/-- **policy_order_as_modelled**: RequirePublicIP tests "not global unicast" (ERR_ADDRESS_INVALID) and then
+    the private-network table (ERR_ADDRESS_PRIVATE) and accepts otherwise — the order and statuses
+    `Model/IP.requirePublic` implements (regenerated decision table). -/
+theorem policy_order_as_modelled :
+    Gen.Decisions.requirePublicSteps = [("!ip.IsGlobalUnicast()", "ERR_ADDRESS_INVALID"), ("IsPrivateAddress(ip)", "ERR_ADDRESS_PRIVATE")] ∧
+    Gen.Decisions.requirePublicFallsThroughTo = "nil" ∧
+    Gen.Decisions.netStatuses = ["ERR_ADDRESS_INVALID", "ERR_ADDRESS_PRIVATE"] := by decide
 
 end OutlineModel.Props.C05
